@@ -66,6 +66,10 @@ func tokensConsume(tokens []token) ([]token, []token) {
 		// strip escapes, such as ` from `foo`, this allows to use keywords as field names
 		length := len(t.str)
 		if length == 0 {
+			// The empty string literal "" is a token of its own, e.g. in: where $foo eq ""
+			if !t.isBareword {
+				consumed = append(consumed, t)
+			}
 			continue
 		}
 		if t.str[0] == '`' && t.str[length-1] == '`' {
